@@ -365,22 +365,38 @@ class CallMixin:
         _, node, def_frame, envref = fn
         sub = State(dict(envref.env), st.facts, st.ctrl, True, st.xctrl)
         a = node.args
-        for p, v in zip(a.args, args):
-            sub.env[p.arg] = v
         fr = Frame(def_frame.func, def_frame.module, def_frame.recv_cls, def_frame.self_av, frame.depth + 1,
                    def_frame.callsite_key)
         fr.local_imports = def_frame.local_imports
+        bound = set()
+        for p, v in zip(a.args, args):
+            sub.env[p.arg] = v
+            bound.add(p.arg)
+        for k, v in (kwargs or {}).items():
+            if any(p.arg == k for p in a.args + a.kwonlyargs):
+                sub.env[k] = v
+                bound.add(k)
+        for d, p in zip(a.defaults[::-1], a.args[::-1]):
+            if p.arg not in bound:
+                sub.env[p.arg] = self.eval(d, sub, fr)
+        for d, p in zip(a.kw_defaults, a.kwonlyargs):
+            if p.arg not in bound and d is not None:
+                sub.env[p.arg] = self.eval(d, sub, fr)
         if isinstance(node, ast.Lambda):
             res = self.eval(node.body, sub, fr)
         else:
-            for d, p in zip(a.defaults[::-1], a.args[::-1]):
-                if p.arg not in sub.env or len(args) < len(a.args):
-                    pass
             out = self.exec_block(node.body, sub, fr)
             rets = [v for (v, _) in fr.returns]
             if out.reachable:
                 rets.append(t("None", const=None))
-            res = join_all(rets)
+            is_gen = any(isinstance(x, (ast.Yield, ast.YieldFrom)) for x in _own_nodes(node))
+            if is_gen:
+                # a nested generator function: calling it gives an iterator over what it yields
+                el = join_all(fr.yields) if fr.yields else None
+                res = AV(types=frozenset({"generator"}), alias=frozenset({self.fresh_loc(frame, n, "gen")}),
+                         elem=_strip(el) if el is not None else None, deps=(el.deps if el is not None else frozenset()))
+            else:
+                res = join_all(rets)
         frame.events.extend(fr.events)
         frame.n_unresolved += fr.n_unresolved
         for m in fr.mutations:
@@ -931,8 +947,14 @@ class CallMixin:
                 r = self.try_dunder(a0, "__next__", [], n, st, frame)
                 if r is not None:
                     return r
+                e = replace(elem_of(a0), const=NOCONST)
+                if len(args) >= 2:
+                    # next(it, default): the default comes back exactly when the iterator is exhausted - a choice that
+                    # depends on everything the iterator (and its filters) was computed from
+                    dflt = replace(args[1], const=NOCONST).with_deps(a0.deps | all_deps(a0.elem))
+                    return join(e, dflt)
                 self.ev(frame, st, "raise", n, exc=("StopIteration",), note="implicit:next")
-                return replace(elem_of(a0), const=NOCONST)
+                return e
             return TOP
         if name == "print":
             return t("None", const=None)
@@ -995,6 +1017,10 @@ class CallMixin:
             return _refresh(a0, fresh, deep=(kind == "deepcopy")) if a0 is not None else TOP
         if kind == "product":
             es = [self.iterate(a, n, st, frame) for a in args]
+            if es and "repeat" not in kwargs:
+                # one component per argument, like nested for loops
+                return AV(types=frozenset({"iterator"}), elem=AV(types=frozenset({"tuple"}), items=tuple(es)), deps=deps,
+                          alias=fresh)
             e = join_all(es) if es else TOP
             return AV(types=frozenset({"iterator"}), elem=AV(types=frozenset({"tuple"}), elem=_strip(e)), deps=deps,
                       alias=fresh)
@@ -1096,3 +1122,14 @@ def _dedupe_mut(muts):
             pass
         out.append(m)
     return out
+
+
+def _own_nodes(fn_node):
+    """nodes of a function body, not descending into functions / lambdas / classes nested in it"""
+    todo = list(fn_node.body)
+    while todo:
+        x = todo.pop()
+        yield x
+        for ch in ast.iter_child_nodes(x):
+            if not isinstance(ch, (ast.FunctionDef, ast.AsyncFunctionDef, ast.Lambda, ast.ClassDef)):
+                todo.append(ch)
